@@ -38,7 +38,7 @@ EXPLANATION = ("Theorems: output rankings never mention the winner and are the i
                "the fractional rule keeps exactly (t-q)/t of every winner-led ballot, so the transferred total is "
                "t-q minus the exhausted part; the transfer value lies in [0,1).")
 
-N_QUICK, N_THOROUGH = 2400, 28800
+N_QUICK, N_THOROUGH = 2400, 86400
 
 
 def gen_transfer_case(rng):
